@@ -39,3 +39,18 @@ Proof.
   destruct (Z.eqb_spec (Z.rem F ws) 0) as [Hs|Hs]; destruct (Z.eqb_spec (Z.rem F wa) 0) as [Ha|Ha]; cbn [negb andb];
     repeat split; auto using Z.rem_1_r; discriminate.
 Qed.
+
+(** * config/config.h, config/macros.h, simd_vector_abi.h evaluated from the compiler's predefined macros for each
+    configuration of the harness grid [scalar; sse2; sse42; avx; avx2; avx512] (translator: own preprocessor with
+    #define tracking).  The native ABI, the availability of masked kernels and of FMA are what the model
+    configurations [mkCfg abi masks ..] of the correspondence harness assume for these flags, and the storage
+    alignment is exactly the byte size of the native vector (at least 16 in the scalar configuration), so that an
+    aligned vector access at an aligned tensor's first element is aligned. *)
+Local Close Scope Z_scope.
+From Coq Require Import Arith List.
+Import ListNotations.
+Lemma gen_isa_table_ok :
+  map (fun r : nat * bool * bool * nat => let '(a, m, f, _) := r in (a, m, f)) gen_isa_table
+  = [(0, false, false); (1, false, false); (1, false, false); (2, false, false); (2, true, true); (3, true, true)] /\
+  forallb (fun r : nat * bool * bool * nat => let '(a, _, _, al) := r in if a =? 0 then 16 <=? al else gen_simd_vector_size a 1 =? al) gen_isa_table = true.
+Proof. split; reflexivity. Qed.
